@@ -86,10 +86,15 @@ Context(PJ) ==
       WE == {e \in E : /\ e.src \in live /\ e.dst \in live /\ PlainPass(jmp, ext, e) /\ e.k # "CrReturnStub"}
   IN  [PJ |-> PJ, P |-> P, E |-> E, jmp |-> jmp, ext |-> ext, entries |-> entries, live |-> live,
        wout |-> [n \in live |-> {e \in WE : e.src = n}],
-       wsucc |-> [n \in live |-> {e.dst : e \in {x \in WE : x.src = n}}]]
+       wsucc |-> [n \in live |-> {e.dst : e \in {x \in WE : x.src = n}}],
+       \* per function TID: its convention, its tracked parameter registers (not the stack pointer)
+       cc |-> [t \in SubTids(P) |-> SubCconv(PJ, t)],
+       pr |-> [t \in SubTids(P) |-> ParamRegs(SubCconv(PJ, t)) \ {SpName(PJ)}],
+       \* defs of the block behind every live BlkStart node
+       defs |-> [n \in {x \in live : x.k = "BlkStart"} |-> BlkOfNode(P, n).defs]]
 
 \* the parameter registers tracked for the function with TID t (the stack pointer is not tracked)
-PR(C, t) == ParamRegs(SubCconv(C.PJ, t)) \ {SpName(C.PJ)}
+PR(C, t) == C.pr[t]
 
 (***************************************************************************)
 (* One walker step.  RP is the current approximation of RetParams:         *)
@@ -117,7 +122,7 @@ CondVars(C, t) == IF t # NoTid /\ C.jmp[t].k = "cbranch" THEN InputVars(C.jmp[t]
 \* Result of taking walker edge e from state s in function f (TID): [R |-> registers read (not yet
 \* restricted to PR), W |-> new overwritten set]
 EdgeEffect(C, RP, f, s, e) ==
-  CASE e.k = "Block" -> RunDefs(BlkOfNode(C.P, s.n).defs, 1, Acc({}, s.W), SpName(C.PJ))
+  CASE e.k = "Block" -> RunDefs(C.defs[s.n], 1, Acc({}, s.W), SpName(C.PJ))
     [] e.k = "Jump" ->
          Acc((CondVars(C, e.jmp) \cup CondVars(C, e.untaken)
               \cup (IF C.jmp[e.jmp].k = "branchind" THEN InputVars(C.jmp[e.jmp].e) ELSE {})) \ s.W, s.W)
@@ -133,7 +138,7 @@ EdgeEffect(C, RP, f, s, e) ==
                       s.W \cup (PR(C, f) \ SavedRegs(cc)) \cup AllRetRegs(cc))
     [] e.k \in {"CallCombine", "CrCallStub"} -> Acc({}, s.W)
     [] e.k = "ReturnCombine" ->        \* s.n = CallReturn(call site in f, returning block of callee sub2)
-         LET cc == SubCconv(C.PJ, s.n.sub2)
+         LET cc == C.cc[s.n.sub2]
          IN  Acc((IF s.n \in DOMAIN RP THEN RP[s.n] ELSE {}) \ s.W,
                  s.W \cup (PR(C, f) \ SavedRegs(cc)) \cup AllRetRegs(cc))
 
